@@ -33,6 +33,14 @@ func (o overlayFlag) Set(s string) error {
 }
 
 func main() {
+	// go/packages resolves `go` through this process's PATH: prefer the toolchain that accepts the
+	// module's go line, and pin the offline environment.
+	if _, err := os.Stat("/opt/veriftools/go1.26.8/bin/go"); err == nil && !strings.HasPrefix(os.Getenv("PATH"), "/opt/veriftools/go1.26.8/bin") {
+		os.Setenv("PATH", "/opt/veriftools/go1.26.8/bin:"+os.Getenv("PATH"))
+	}
+	for k, v := range map[string]string{"GOTOOLCHAIN": "local", "GOFLAGS": "-mod=mod", "GOPROXY": "off", "GOSUMDB": "off", "GOWORK": "off"} {
+		os.Setenv(k, v)
+	}
 	prop := flag.String("prop", "", "property id (C01..C20)")
 	tier := flag.String("tier", "quick", "quick or thorough")
 	repo := flag.String("repo", "/repo", "repository root")
